@@ -35,14 +35,14 @@ Section GenericThms.
   Let open1' := open1 ms_select ms_lazy.
 
   (* agreement *)
-  Lemma agreement_l : forall c t kn b reqs extra race b' r,
-    open1' c t kn b reqs extra race = (b', r) -> obtained r = true ->
+  Lemma agreement_l : forall c t kn b reqs extra race allow b' r,
+    open1' c t kn b reqs extra race allow = (b', r) -> obtained r = true ->
     In (o_dp r) reqs /\ o_lp r = o_dp r /\ o_ninv r = 1 /\ o_hreg r = o_h r /\ o_hlp r = o_dp r /\
     o_un r = [] /\
     exists pre h post, t = pre ++ h :: post /\ h_reg h = o_h r /\
       memz (o_dp r) (h_acc h) = true /\ (forall x, In x pre -> memz (o_dp r) (h_acc x) = false).
   Proof.
-    intros c t kn b reqs extra race b' r H Hob.
+    intros c t kn b reqs extra race allow b' r H Hob.
     apply (open1_outcome ms_select ms_lazy ms_select_some ms_lazy_spec) in H.
     destruct H as [p h b' Hin Hf _ _ _ _ _ | code Hcode | p b' _ _ _ _ | p h _ _].
     - cbn [obtained_res o_dp o_lp o_ninv o_hreg o_h o_hlp o_un]. repeat (split; [auto|]).
@@ -54,13 +54,13 @@ Section GenericThms.
   Qed.
 
   (* no protocol in common *)
-  Lemma no_common_l : forall c t kn b reqs extra race b' r,
+  Lemma no_common_l : forall c t kn b reqs extra race allow b' r,
     (forall q, In q reqs -> supports t q = false) ->
-    open1' c t kn b reqs extra race = (b', r) ->
+    open1' c t kn b reqs extra race allow = (b', r) ->
     obtained r = false /\ o_ninv r = 0 /\ o_un r = [] /\ same_counts b b' /\
     (o_res r <> 0 \/ (o_use r = 0 /\ memz (o_dp r) kn = true)).
   Proof.
-    intros c t kn b reqs extra race b' r Hno H.
+    intros c t kn b reqs extra race allow b' r Hno H.
     apply (open1_outcome ms_select ms_lazy ms_select_some ms_lazy_spec) in H.
     destruct H as [p h b' Hin Hf _ _ _ _ _ | code Hcode | p b' Hin Hsc _ Hex | p h Hin Hf].
     - exfalso. specialize (Hno p Hin). unfold supports in Hno. rewrite Hf in Hno. discriminate.
@@ -73,8 +73,8 @@ Section GenericThms.
   Qed.
 
   (* the charge *)
-  Lemma scope_charged_l : forall c t kn b reqs extra race b' r,
-    open1' c t kn b reqs extra race = (b', r) ->
+  Lemma scope_charged_l : forall c t kn b reqs extra race allow b' r,
+    open1' c t kn b reqs extra race allow = (b', r) ->
     if obtained r
     then b_out b' = upd (b_out b) (o_dp r) (b_out b (o_dp r) + 1) /\
          b_in b' = upd (b_in b) (o_lp r) (b_in b (o_lp r) + 1) /\
@@ -83,8 +83,8 @@ Section GenericThms.
          scope_try (limL c) (b_in b) (o_dp r) <> None
     else same_counts b b'.
   Proof.
-    intros c t kn b reqs extra race b' r H.
-    pose proof (open1_outcome ms_select ms_lazy ms_select_some ms_lazy_spec _ _ _ _ _ _ _ _ _ H) as Ho.
+    intros c t kn b reqs extra race allow b' r H.
+    pose proof (open1_outcome ms_select ms_lazy ms_select_some ms_lazy_spec _ _ _ _ _ _ _ _ _ _ H) as Ho.
     destruct Ho as [p h b' Hin Hf Eo Ei Eh _ _ ED EL | code Hcode | p b' _ Hsc _ _ | p h _ _].
     - rewrite obt_obtained. cbn [obtained_res o_dp o_lp]. repeat (split; [assumption|]).
       split; congruence.
@@ -115,23 +115,23 @@ Lemma holds_model_i : forall U hs c ops, wf_cfg hs c -> Forall (wf_op U) ops ->
   holds U hs (limL c) (trace_i U c init_st ops) = true.
 Proof. intros. apply holds_model_any; auto using impl_select_some, impl_lazy_spec. Qed.
 
-Lemma agreement_i : forall c t kn b reqs extra race b' r,
-  open1_i c t kn b reqs extra race = (b', r) -> obtained r = true ->
+Lemma agreement_i : forall c t kn b reqs extra race allow b' r,
+  open1_i c t kn b reqs extra race allow = (b', r) -> obtained r = true ->
   In (o_dp r) reqs /\ o_lp r = o_dp r /\ o_ninv r = 1 /\ o_hreg r = o_h r /\ o_hlp r = o_dp r /\
   o_un r = [] /\
   exists pre h post, t = pre ++ h :: post /\ h_reg h = o_h r /\
     memz (o_dp r) (h_acc h) = true /\ (forall x, In x pre -> memz (o_dp r) (h_acc x) = false).
 Proof. exact (agreement_l ms_select_impl ms_lazy_impl impl_select_some impl_lazy_spec). Qed.
 
-Lemma no_common_i : forall c t kn b reqs extra race b' r,
+Lemma no_common_i : forall c t kn b reqs extra race allow b' r,
   (forall q, In q reqs -> supports t q = false) ->
-  open1_i c t kn b reqs extra race = (b', r) ->
+  open1_i c t kn b reqs extra race allow = (b', r) ->
   obtained r = false /\ o_ninv r = 0 /\ o_un r = [] /\ same_counts b b' /\
   (o_res r <> 0 \/ (o_use r = 0 /\ memz (o_dp r) kn = true)).
 Proof. exact (no_common_l ms_select_impl ms_lazy_impl impl_select_some impl_lazy_spec). Qed.
 
-Lemma scope_charged_i : forall c t kn b reqs extra race b' r,
-  open1_i c t kn b reqs extra race = (b', r) ->
+Lemma scope_charged_i : forall c t kn b reqs extra race allow b' r,
+  open1_i c t kn b reqs extra race allow = (b', r) ->
   if obtained r
   then b_out b' = upd (b_out b) (o_dp r) (b_out b (o_dp r) + 1) /\
        b_in b' = upd (b_in b) (o_lp r) (b_in b (o_lp r) + 1) /\
